@@ -295,3 +295,23 @@ Definition c01_vctxr (P : string) (id : option (string * nat)) (rounds : list (l
   | IErr => "ERR" | IFault => "FAULT"
   | IOk c => join "," (vctx_rounds c rounds)
   end.
+
+(* signing context with a separate entropy script per round; a failing finish (entropy exhausted
+   during the refill) is reported as ERR and the caller goes on: reset, next message.  The failed
+   sm2_sign_finish leaves num_pre_comp unchanged and only dead pre_comp entries overwritten. *)
+Fixpoint sstreamf_rounds (c : sign_ctx) (rounds : list (list string * string)) : list string :=
+  match rounds with
+  | [] => []
+  | (chunks, en) :: rest =>
+    let c1 := fold_left sign_update (map hx chunks) c in
+    match sign_finish B c1 (ent_of en) with
+    | Some (sg, c2, _) => bhex sg :: sstreamf_rounds (sign_reset c2) rest
+    | None => "ERR" :: sstreamf_rounds (sign_reset c1) rest
+    end
+  end.
+Definition c01_sstreamf (d P : string) (id : option (string * nat)) (en0 : string)
+           (rounds : list (list string * string)) : string :=
+  match sign_init B (hz d) (pt_of P) (id_of id) (ent_of en0) with
+  | IErr => "ERR" | IFault => "FAULT"
+  | IOk (c, _) => join "," (sstreamf_rounds c rounds)
+  end.
